@@ -151,7 +151,8 @@ HDflush(int32 file_id)
     if (BADFREC(file_rec))
         HRETURN_ERROR(DFE_ARGS, FAIL);
 
-    HI_FLUSH(file_rec->file);
+    if (HI_FLUSH(file_rec->file) == FAIL)
+        HRETURN_ERROR(DFE_WRITEERROR, FAIL);
 
     return SUCCEED;
 } /* HDflush */
